@@ -139,8 +139,8 @@ func parseFromStdin(cmd *cobra.Command) error {
 	// Create parser
 	parser := NewParser(cmd.OutOrStdout(), cmd.ErrOrStderr(), opts)
 
-	// Parse the stdin content (Parse accepts string input directly)
-	result, err := parser.Parse(string(content))
+	// Parse the stdin content: it is SQL text, never a file name
+	result, err := parser.ParseContent(content)
 	if err != nil {
 		return err
 	}
